@@ -13,3 +13,8 @@ func Verif_C04_R3_FlatFindMissing() { verifScenarioFlatFindMissing() }
 func Verif_C04_R3_HierGet()         { verifScenarioHierGet() }
 func Verif_C04_R3_HierPut()         { verifScenarioHierPut() }
 func Verif_C04_R3_HierFindMissing() { verifScenarioHierFindMissing() }
+
+// R2: block space is not handed out again before a state file that no longer lists
+// the block has been written (deferred release), and is released exactly once after.
+func Verif_C04_R2_DeferredRelease()        { verifScenarioDeferredRelease() }
+func Verif_C04_R2_ReleaseAfterStateWrite() { verifScenarioProcessBlockRelease() }
